@@ -21,3 +21,14 @@ package server
 //@   ensures calls(Handle) == 1 && arg(Handle, 0, 0) == h && arg(Handle, 0, 2) == req && isfunc(arg(Handle, 0, 4), pool.PackTCPBuffer)
 //@   ensures ret(Handle, 0) == nil ==> calls(Write) == 0 && calls(Close) == 1 && calls(ReleaseBuf) == 0
 //@   ensures ret(Handle, 0) != nil ==> calls(Write) == 1 && arg(Write, 0, 0) == c && arg(Write, 0, 1) == aftercall(Handle, 0, *ret(Handle, 0)) && calls(ReleaseBuf) == 1 && arg(ReleaseBuf, 0, 0) == ret(Handle, 0)
+
+// ServeUDP (C03): every datagram is decoded into a message object of its own — allocated in the
+// iteration that read the datagram — so the query a handler goroutine is still working on is never
+// overwritten by a later datagram (its ID and question stay the ones its client sent).
+//@ func ServeUDP [C03]
+//@   requires c != nil && h != nil
+//@   modifies *
+//@   loop 0:
+//@     invariant c != nil && h != nil && rb != nil && logger != nil
+//@     each iter_calls(msgUnpack) <= 1
+//@     each iter_calls(msgUnpack) == 1 ==> !athead(allocated(iter_arg(msgUnpack, 0, 0)))
